@@ -267,6 +267,11 @@ def primezeta(ctx, s):
         return 0.5**s
     else:
         wp = ctx.prec + int(r)
+        # The terms decrease like 2**(-k*r): about wp/r of them are needed,
+        # each one an evaluation of zeta
+        if wp > 10**6 * r:
+            raise ctx.NoConvergence("primezeta: re(s) is too close to 0, "
+                "about %i terms would be needed" % int(wp/r))
         def terms():
             orig = ctx.prec
             # zeta ~ 1+eps; need to set precision
